@@ -578,12 +578,25 @@ func caseFiles(c *Sexp) ([]fileSpec, int) {
 func newCtx(files []fileSpec, target int) (*parsley.Context, *text.File) {
 	fset := parsley.NewFileSet()
 	var tf *text.File
+	offs, lens := make([]int, len(files)), make([]int, len(files))
 	for i, f := range files {
 		tfile := text.NewFile(f.name, f.raw)
 		fset.AddFile(tfile)
+		offs[i], lens[i] = int(tfile.Pos(0)), tfile.Len()
 		if i == target {
 			tf = tfile
 		}
+	}
+	// the file set has been ASKED before, as it is in any multi-file use: a position in every file, the last question in
+	// the file just before the target (a position cache inside the file set must not change any later answer)
+	for i := range files {
+		if i != target {
+			fset.Position(parsley.Pos(offs[i]))
+		}
+	}
+	if target > 0 {
+		fset.Position(parsley.Pos(offs[target-1] + lens[target-1]))
+		fset.Position(parsley.Pos(offs[target-1]))
 	}
 	return parsley.NewContext(fset, text.NewReader(tf)), tf
 }
